@@ -319,10 +319,13 @@ pub struct MSeg {
     pub at: Location,
     pub facts_tag: u8,
     pub facts_fail: bool,
+    /// commands held: max cuts first .. first + ncmds (ncmds = 0: `get_command` finds nothing)
+    pub first: u64,
+    pub ncmds: u64,
 }
 impl MSeg {
     pub fn any() -> Self {
-        Self { head: fresh_id(), at: any_loc(), facts_tag: kani::any(), facts_fail: kani::any() }
+        Self { head: fresh_id(), at: any_loc(), facts_tag: kani::any(), facts_fail: kani::any(), first: 0, ncmds: 0 }
     }
 }
 impl Segment for MSeg {
@@ -340,14 +343,20 @@ impl Segment for MSeg {
     fn prior(&self) -> Prior<Location> {
         Prior::None
     }
-    fn get_command(&self, _: Location) -> Option<MCmd> {
-        None
+    fn get_command(&self, l: Location) -> Option<MCmd> {
+        let mc = l.max_cut.get();
+        if l.segment == self.at.segment && mc >= self.first && mc - self.first < self.ncmds {
+            // the command id encodes its max cut
+            Some(MCmd::new(id_of(mc as u8), Prior::None))
+        } else {
+            None
+        }
     }
     fn facts(&self) -> Result<MFI, StorageError> {
         if self.facts_fail { Err(any_serr()) } else { Ok(MFI(self.facts_tag)) }
     }
     fn shortest_max_cut(&self) -> MaxCut {
-        self.at.max_cut
+        if self.ncmds > 0 { MaxCut::new(self.first) } else { self.at.max_cut }
     }
     fn longest_max_cut(&self) -> Result<MaxCut, StorageError> {
         Ok(self.at.max_cut)
@@ -376,6 +385,9 @@ pub struct MStorage {
     pub found_seg: u8,
     /// do not log lookups (keeps the ghost-log index concrete when the number of lookups is symbolic)
     pub quiet: bool,
+    /// when `seg_ncmds > 0`, `get_segment` succeeds and yields a segment holding these commands
+    pub seg_first: u64,
+    pub seg_ncmds: u64,
 }
 impl MStorage {
     pub fn any() -> Self {
@@ -392,6 +404,8 @@ impl MStorage {
             anc_fails: false,
             found_seg: 0,
             quiet: false,
+            seg_first: 0,
+            seg_ncmds: 0,
         }
     }
 }
@@ -463,11 +477,14 @@ impl Storage for MStorage {
         if kani::any() { Err(any_serr()) } else { Ok(MPersp::any()) }
     }
     fn get_segment(&self, l: Location) -> Result<MSeg, StorageError> {
+        if self.seg_ncmds > 0 {
+            return Ok(MSeg { head: id_of(0), at: l, facts_tag: 0, facts_fail: false, first: self.seg_first, ncmds: self.seg_ncmds });
+        }
         log(GET_SEGMENT, l.segment.get() as u8);
         if kani::any() {
             Err(any_serr())
         } else {
-            Ok(MSeg { head: fresh_id(), at: l, facts_tag: kani::any(), facts_fail: kani::any() })
+            Ok(MSeg { head: fresh_id(), at: l, facts_tag: kani::any(), facts_fail: kani::any(), first: 0, ncmds: 0 })
         }
     }
     fn get_heads(&self) -> Result<&HeadSet, StorageError> {
